@@ -11,6 +11,7 @@ import (
 	"os"
 	"os/exec"
 	"path/filepath"
+	"reflect"
 	"regexp"
 	"sort"
 	"strconv"
@@ -125,6 +126,37 @@ func rtInputs(c *config, stream string, ngen int) []rtInput {
 	// all-digit names with leading zeros (they are names, not IDs: quoted by the printer), in the positions where
 	// all-digit names work on the unchanged tree (globals, functions, parameters, blocks), with uses
 	add("spelling", "numeric-names", "@\"007\" = global i32 1\n@\"00\" = global i32* @\"007\"\n@\"7\" = global i32 2\n\ndefine i32 @\"0012\"(i32 %\"01\", i32 %\"1\") {\n\"00\":\n\t%x = add i32 %\"01\", %\"1\"\n\tbr label %\"010\"\n\"010\":\n\t%y = load i32, i32* @\"007\"\n\t%z = add i32 %x, %y\n\tret i32 %z\n}\n\ndefine i32 @caller() {\n\t%r = call i32 @\"0012\"(i32 1, i32 2)\n\tret i32 %r\n}\n")
+	// attributes that carry an argument, and their plain neighbours, in every position of the grammar: return,
+	// parameter and function position of declare / define / call / invoke / callbr (one module per attribute, so
+	// that a rejection names it)
+	{
+		// (not `align 8` in return position: the grammar of the pinned llir/ll dependency rejects it, whatever the translator does)
+		retAttrs := []string{"dereferenceable(16)", "dereferenceable_or_null(16)", "noalias", "nonnull", "noundef", "inreg"}
+		paramAttrs := []string{"align 8", "dereferenceable(16)", "dereferenceable_or_null(16)", "byval(i32)", "sret(i32)", "inalloca(i32)", "preallocated(i32)",
+			"byref(i32)", "elementtype(i32)", "noalias", "nocapture", "nonnull", "noundef", "readonly", "\"key\"=\"value\"", "\"flag\"", "\"empty\"=\"\""}
+		funcAttrs := []string{"alignstack(16)", "allocsize(0)", "allocsize(0, 1)", "vscale_range(1, 2)", "uwtable", "nounwind", "\"key\"=\"value\"", "\"flag\"", "\"empty\"=\"\""}
+		shape := func(ret, par, fn string) string {
+			sp := func(a string) string {
+				if a == "" {
+					return ""
+				}
+				return " " + a
+			}
+			return fmt.Sprintf("declare%s i32* @d(i32*%s)%s\n\ndefine%s i32* @f(i32*%s %%p)%s personality i8* null {\nentry:\n\t%%a = call%s i32* @d(i32*%s %%p)%s\n\t%%b = invoke%s i32* @d(i32*%s %%p)%s\n\t\t\tto label %%ok unwind label %%bad\nok:\n\t%%c = callbr%s i32* @d(i32*%s %%p)%s\n\t\t\tto label %%done []\ndone:\n\tret i32* %%a\nbad:\n\t%%l = landingpad i32\n\t\t\tcleanup\n\tret i32* %%b\n}\n",
+				sp(ret), sp(par), sp(fn), sp(ret), sp(par), sp(fn), sp(ret), sp(par), sp(fn), sp(ret), sp(par), sp(fn), sp(ret), sp(par), sp(fn))
+		}
+		for _, a := range retAttrs {
+			add("definitions", "attr-return-"+a, shape(a, "", ""))
+		}
+		// a pair with an empty value next to the bare key, in an attribute group
+		add("definitions", "attr-group-empty-value", "declare void @g() #0\n\nattributes #0 = { \"empty\"=\"\" \"bare\" \"k\"=\"v\" }\n")
+		for _, a := range paramAttrs {
+			add("definitions", "attr-param-"+a, shape("", a, ""))
+		}
+		for _, a := range funcAttrs {
+			add("definitions", "attr-func-"+a, shape("", "", a))
+		}
+	}
 	add("spelling", "quoting", "@\"plain\" = global i32 0 ; comment\n\n\n  @\"with space\"   =   global   i32   1\ndefine void @\"f\"() {\n\"entry\":\n\tret void\n}\n")
 	return ins
 }
@@ -217,6 +249,13 @@ func c02One(c *config, in rtInput, sample bool) {
 	d1, d2 := checkIdentity(m1), checkIdentity(m2)
 	if strings.Join(d1.dump, "\n") != strings.Join(d2.dump, "\n") {
 		o.Fail("fixpoint", in.class, "the two parsed modules differ structurally", det)
+		return
+	}
+	// and field by field: dynamic types, scalar values, lengths
+	s1, s2 := shapeDump(m1), shapeDump(m2)
+	if diff := firstDumpDiff(s1, s2); diff != "equal" {
+		det["first_difference"] = diff
+		o.Fail("fixpoint", in.class, "the two parsed modules differ in a field", det)
 		return
 	}
 	o.Pass("fixpoint")
@@ -822,6 +861,15 @@ func c03Module(r *rng, i int) *ir.Module {
 	g3 := m.NewGlobalDef("s", constant.NewCharArrayFromString("hi\x00\"q\"\n"))
 	g3.Immutable = true
 	m.NewAlias("al", g1)
+	// integer constants wider than a machine word, on both sides of the decimal/hexadecimal choice of the printer
+	for k, w := range []uint64{65, 70, 128, 200} {
+		x := new(big.Int).Lsh(big.NewInt(int64(1+r.intn(1000))), uint(64+r.intn(int(w-64))))
+		if k%2 == 1 {
+			x.Add(x, big.NewInt(int64(r.intn(1<<20))))
+		}
+		x.Mod(x, new(big.Int).Lsh(big.NewInt(1), uint(w-1)))
+		m.NewGlobalDef(fmt.Sprintf("wide%d", w), &constant.Int{Typ: types.NewInt(w), X: x})
+	}
 	// unnamed entities of every kind, so that the numbering pass and the printing order have to agree
 	if i%2 == 1 {
 		m.NewAlias("", g1)
@@ -888,6 +936,14 @@ func c03Check(c *config, m *ir.Module, det map[string]interface{}, class string,
 	if strings.Join(d1.dump, "\n") != strings.Join(d2.dump, "\n") {
 		det["first_difference"] = firstDumpDiff(d1.dump, d2.dump)
 		o.Fail("construct_print_parse", class, "the re-parsed module differs structurally from the constructed one", det)
+		return
+	}
+	// constant values: every integer the constructed module holds is the integer the re-parsed module holds at
+	// the same place (the text may spell it in any notation)
+	v1, v2 := intValues(m), intValues(m2)
+	if diff := firstDumpDiff(v1, v2); diff != "equal" {
+		det["first_difference"] = diff
+		o.Fail("construct_print_parse", class, "an integer constant of the constructed module is read back as another value", det)
 		return
 	}
 	if c.tier == "thorough" && c03LLVMCheckable(text, det) {
@@ -958,4 +1014,79 @@ func firstDumpDiff(a, b []string) string {
 		return "extra in constructed: " + a[len(b)]
 	}
 	return "equal"
+}
+
+// shapeDump renders every exported field reachable from the module: dynamic types of interface values, scalar
+// values, lengths; an object met a second time is named by the order of its first visit (the reference
+// structure itself is compared by checkIdentity).  Two parses of one text must give the same rendering.
+func shapeDump(m *ir.Module) []string {
+	var out []string
+	seen := map[uintptr]int{}
+	var walk func(v reflect.Value, path string, depth int)
+	walk = func(v reflect.Value, path string, depth int) {
+		if depth > 200 || !v.IsValid() {
+			return
+		}
+		switch v.Kind() {
+		case reflect.Interface:
+			if v.IsNil() {
+				out = append(out, path+" = nil")
+				return
+			}
+			out = append(out, path+" :: "+v.Elem().Type().String())
+			walk(v.Elem(), path, depth+1)
+		case reflect.Ptr:
+			if v.IsNil() {
+				out = append(out, path+" = nil")
+				return
+			}
+			if n, ok := seen[v.Pointer()]; ok {
+				out = append(out, fmt.Sprintf("%s -> #%d", path, n))
+				return
+			}
+			seen[v.Pointer()] = len(seen)
+			walk(v.Elem(), path, depth+1)
+		case reflect.Struct:
+			if v.Type().String() == "big.Int" || v.Type().String() == "big.Float" {
+				if v.CanAddr() && v.Addr().CanInterface() {
+					out = append(out, fmt.Sprintf("%s = %v", path, v.Addr().Interface()))
+				}
+				return
+			}
+			for i := 0; i < v.NumField(); i++ {
+				sf := v.Type().Field(i)
+				if sf.PkgPath != "" || sf.Name == "Parent" {
+					continue
+				}
+				walk(v.Field(i), path+"."+sf.Name, depth+1)
+			}
+		case reflect.Slice, reflect.Array:
+			out = append(out, fmt.Sprintf("%s len %d", path, v.Len()))
+			for i := 0; i < v.Len(); i++ {
+				walk(v.Index(i), fmt.Sprintf("%s[%d]", path, i), depth+1)
+			}
+		case reflect.Map:
+			keys := v.MapKeys()
+			sort.Slice(keys, func(i, j int) bool { return fmt.Sprint(keys[i]) < fmt.Sprint(keys[j]) })
+			for _, k := range keys {
+				walk(v.MapIndex(k), fmt.Sprintf("%s[%v]", path, k), depth+1)
+			}
+		case reflect.String, reflect.Bool, reflect.Int, reflect.Int8, reflect.Int16, reflect.Int32, reflect.Int64,
+			reflect.Uint, reflect.Uint8, reflect.Uint16, reflect.Uint32, reflect.Uint64, reflect.Float32, reflect.Float64:
+			out = append(out, fmt.Sprintf("%s = %v", path, v))
+		}
+	}
+	walk(reflect.ValueOf(m), "m", 0)
+	return out
+}
+
+// intValues lists, in traversal order, the value of every big.Int reachable from the module
+func intValues(m *ir.Module) []string {
+	var out []string
+	for _, l := range shapeDump(m) {
+		if i := strings.Index(l, ".X = "); i >= 0 && !strings.ContainsAny(l[i+5:], ".eEIN") {
+			out = append(out, l[i+5:])
+		}
+	}
+	return out
 }
